@@ -74,7 +74,7 @@ def cases(draw, tier):
     complete = draw(st.sampled_from([False, False, True]))
     shapes = ["complete", "identical", "near_unanimous", "cyclic"] if complete else \
         ["incomplete", "incomplete", "sparse_block", "near_unanimous_incomplete", "cyclic_incomplete", "block_cyclic"]
-    ds = draw(gen.datasets(max_n=mx, min_n=2, max_m=5, shapes=shapes, allow_empty_rankings=not complete))
+    ds = draw(gen.datasets(max_n=mx, min_n=2, max_m=5, shapes=shapes, allow_empty_rankings=not complete, many="byte"))
     return {"config": name, "env": env, "scheme": draw(schemes()), "dataset": ds,
             "at_most_one": draw(st.sampled_from([True, True, False])), "rng": draw(st.integers(0, 9999)),
             # one case in three: the Dataset object reached these rankings through an in-place mutation
